@@ -236,11 +236,17 @@ impl Accept for DuplexIncoming {
         mut self: Pin<&mut Self>,
         cx: &mut Context<'_>,
     ) -> Poll<Result<Self::Conn, Self::Error>> {
-        if let Some(request) = ready!(self.receiver.poll_recv(cx)) {
-            let stream = request.ack(self.max_buf_size)?;
-            Poll::Ready(Ok(stream))
-        } else {
-            Poll::Ready(Err(io::ErrorKind::ConnectionReset.into()))
+        loop {
+            if let Some(request) = ready!(self.receiver.poll_recv(cx)) {
+                // A client which gave up on `connect` before we got here has dropped the
+                // receiving end of its request. That is not a failure of the listener:
+                // skip the stale request and look at the next one.
+                if let Ok(stream) = request.ack(self.max_buf_size) {
+                    return Poll::Ready(Ok(stream));
+                }
+            } else {
+                return Poll::Ready(Err(io::ErrorKind::ConnectionReset.into()));
+            }
         }
     }
 }
@@ -249,11 +255,15 @@ impl futures_core::Stream for DuplexIncoming {
     type Item = Result<DuplexStream, io::Error>;
 
     fn poll_next(mut self: Pin<&mut Self>, cx: &mut Context<'_>) -> Poll<Option<Self::Item>> {
-        if let Some(request) = ready!(self.receiver.poll_recv(cx)) {
-            let stream = request.ack(self.max_buf_size)?;
-            Poll::Ready(Some(Ok(stream)))
-        } else {
-            Poll::Ready(None)
+        loop {
+            if let Some(request) = ready!(self.receiver.poll_recv(cx)) {
+                // Skip requests from clients which cancelled their `connect` (see `poll_accept`).
+                if let Ok(stream) = request.ack(self.max_buf_size) {
+                    return Poll::Ready(Some(Ok(stream)));
+                }
+            } else {
+                return Poll::Ready(None);
+            }
         }
     }
 }
